@@ -38,7 +38,7 @@ PROPS = {
         trusted=["OS file system and mmap below the modelled append/rename semantics"],
     ),
     "C08": dict(
-        lean_modules=["Liftbridge.Props.C08", "Liftbridge.Props.CleanRace", "Liftbridge.Props.GoCompact", "Liftbridge.Props.GoRevScan"],
+        lean_modules=["Liftbridge.Props.C08", "Liftbridge.Props.CleanRace", "Liftbridge.Props.GoCompact", "Liftbridge.Props.GoCompactAux", "Liftbridge.Props.GoRevScan"],
         gen_sources=["server/commitlog/compact_cleaner.go"],
         go_pkg="./server/commitlog", test="TestVerifC08",
         level="proof",
